@@ -1,6 +1,7 @@
 import LyModel.Valid.FullUniqMain
 import LyModel.Valid.FullSaneB
 import LyModel.Valid.LemmasPerm
+import LyModel.Valid.FullOper
 /-!
 # C02 — validation accepts exactly the valid instances: the full schema language of the model
 
@@ -163,5 +164,41 @@ example : KeysFirst XfullU.base ∧ TreePerm XfullU.base tFullOk tFullOkPerm ∧
       exact verdict_order_independent XfullU {} rfl h1 h2 h3 h4 h5 h6 h7 (by decide) hk t t' hp h8 h9 h10 h8' h9' h10'
   exact ⟨hk, hp1, (V _ _ hp1 (by decide) (by decide)).1 (by decide),
     fun h => absurd ((V _ _ hp2 (by decide) (by decide)).2 h).2 (by decide)⟩
+
+/-! ## `LYD_VALIDATE_OPERATIONAL` only downgrades -/
+
+/-- **`operational_relaxes`** (every schema of the model, every option set, EVERY tree — no hypothesis): `LYD_VALIDATE_OPERATIONAL`
+does not change what validation does to the tree (same resulting tree, same change set); the errors it logs are a sublist, in
+order, of the errors logged without it; it never reports `NoMin` / `NoMax` / `NoUniq` / `NoMand` / `NoMandChoice` (`downgraded`:
+in the C these become warnings, `LY_VAL_ERR_GOTO` is not taken); and what disappears is one of those or a `Dup` (duplicate list /
+leaf-list instances, `lyd_validate_duplicates`). -/
+theorem operational_relaxes (X : SchemaX) (o : VOpts) (t : List DNode) :
+    (validate X (o.oper true) t).tree = (validate X (o.oper false) t).tree ∧
+    (validate X (o.oper true) t).evs = (validate X (o.oper false) t).evs ∧
+    (validate X (o.oper true) t).errs.Sublist (validate X (o.oper false) t).errs ∧
+    (∀ e ∈ (validate X (o.oper true) t).errs, downgraded e.kind = false) ∧
+    (∀ e ∈ (validate X (o.oper false) t).errs, e ∉ (validate X (o.oper true) t).errs → downgraded e.kind = true ∨ e.kind = .dup) :=
+  LyModel.Valid.operational_relaxes X o t
+
+/-- hence, with `validate_ok_iff_valid_full`: a valid instance is accepted under `LYD_VALIDATE_OPERATIONAL` too -/
+theorem operational_accepts_valid (X : SchemaX) (o : VOpts) (hop : o.operational = false) (hq : X.q.implicitInnerCase = false)
+    (hqu : X.q.uniqueDefaultAlways = false) (hl : KidsLookupOk X) (hnl : NodeLookupOk X) (hio : InfoOk X) (hs : FullSane X o)
+    (hup : UniqPathsOk X) (t : List DNode)
+    (hg : goodL X X.top t = true) (hlen0 : t.length ≤ uint32Max) (hh : sheightL X.top ≤ walkFuel X t) (hv : Valid X o t) :
+    (validate X (o.oper true) t).errs = [] := by
+  have ho : o.oper false = o := by cases o; simp [VOpts.oper] at hop ⊢; exact hop
+  apply operational_accepts X o t
+  rw [ho]
+  exact ((validate_ok_iff_valid_full X o hop hq hqu hl hnl hio hs hup t hg hlen0 hh).2 hv).2
+
+/-- non-vacuity: on `tFullBad1` (nested mandatory choice without data, missing mandatory leaf) the operational run logs nothing and
+returns the same tree; on `tFullBad2` (two cases) `DupCase` stays; the valid `tFullOk` is accepted by the theorem -/
+example : (validate XfullU { operational := true } tFullBad1).errs = [] ∧
+    (validate XfullU { operational := true } tFullBad1).tree = (validate XfullU {} tFullBad1).tree ∧
+    ((validate XfullU { operational := true } tFullBad2).errs.map (·.kind)) = [.dupCase] ∧
+    (validate XfullU { operational := true } tFullOk).errs = [] := by
+  refine ⟨by decide, (operational_relaxes XfullU {} tFullBad1).1, by decide, ?_⟩
+  obtain ⟨h1, h2, h3, h4, h5, h6, h7, h8, h9, h10⟩ := full_hyps {} (by decide) tFullOk (by decide)
+  exact operational_accepts_valid XfullU {} rfl h1 h2 h3 h4 h5 h6 h7 tFullOk h8 h9 h10 (by decide)
 
 end LyModel.Props.C02
